@@ -19,7 +19,8 @@ func init() {
 		Rule: "one serial actor answering *AskDef requests by a per-request policy (reply now / after an inline or asynchronous virtual latency / never) and 1..6 asker threads using AskOnce, AskChannel, " +
 			"AskOnceWithTimeout; latency classes relative to the timeout: far below, 0.25ms below, 0.25ms above, 10x, never; a logging ActorHandle proxy records the virtual instant Send returned; " +
 			"oracles: correlation (value = f(own unique message)), in-time => reply, timeout => zero value + ErrActorAskTimeout after >= timeout, never => timeout, late => timeout (stall-free runs only), " +
-			"late Reply neither panics nor blocks, the actor keeps serving; non-trivial = >=2 asks in flight at once or a reply produced after its timeout; distinct = distinct context-switch signature",
+			"late Reply neither panics nor blocks, the actor keeps serving; non-trivial = >=2 asks in flight at once or a reply produced after its timeout; distinct = distinct context-switch signature" +
+			" Flavours: asks derived from a shared prototype, asker-supplied reply channels, same Ask object retried after a timeout, reused after successes, asked from two goroutines at once, a final ask answered by an actor that then closes itself.",
 		Real: []string{"fpgo.ActorDef mailbox goroutine", "fpgo.AskDef (AskOnce, AskOnceWithTimeout, AskChannel, Reply)", "time.After on the fake clock"},
 		Stub: []string{"goroutine scheduler", "clock", "actor effect (reply policy)", "ActorHandle logging proxy"},
 	})
